@@ -160,8 +160,9 @@ func Render(stmts []*Stmt, trailing string) (string, []Info) {
 // source text between the quotes, qw the width of the line up to and including
 // the opening quote (a tab counting 8).  grey reports that the input touches a
 // case the RFC text does not determine: an escape next to a blank or a line
-// edge (order of substitution vs stripping), an escape other than \n \t \" \\,
-// a tab that straddles the quote column, a lone CR.
+// edge (order of substitution vs stripping), a backslash in front of a blank,
+// a tab that straddles the quote column, a lone CR.  A backslash in front of
+// any other character is ordinary text: both characters stay.
 func DecodeDQ(raw string, qw int) (val string, grey bool) {
 	// split into lines at LF; remember CRLF
 	type ln struct {
@@ -216,12 +217,16 @@ func DecodeDQ(raw string, qw int) (val string, grey bool) {
 				continue
 			}
 			if k+1 >= len(t) {
-				grey = true
+				// a backslash as the last character of a line: followed by the line break it is no escape and stays as
+				// it is (only \n \t \" \\ are substituted); at the very end of the text it cannot occur
+				if l.brk == "" {
+					grey = true
+				}
 				break
 			}
 			e := t[k+1]
-			if e != 'n' && e != 't' && e != '"' && e != '\\' {
-				grey = true
+			if e != 'n' && e != 't' && e != '"' && e != '\\' && (e == ' ' || e == '\t') {
+				grey = true // a backslash in front of a blank: stripping may or may not see that blank
 			}
 			if e == 'n' || e == 't' {
 				before := k == 0 || t[k-1] == ' ' || t[k-1] == '\t'
